@@ -29,7 +29,7 @@ RULE = ("well-formed texts from the syntax IR (all bracket kinds, strings with e
         "EVERY cut point is read (exhaustive per text). One evaluation = one cut. Non-trivial = cut "
         "inside a construct of nesting >= 2 or inside an f-string field; distinct by (text, cut).")
 FLOOR = {"quick": 5000, "thorough": 5000}
-BUDGET = {"quick": 30, "thorough": 480}
+BUDGET = {"quick": 25, "thorough": 480}
 CASE_TIMEOUT = 60
 NEEDS_EVENTS = True
 ANCHORS = ["hy.reader.reader:Reader.chars", "hy.reader.reader:Reader.peeking",
